@@ -295,6 +295,9 @@ func (o *oracles) afterStep() {
 		}
 		if quiet {
 			o.observeMembership(h, st)
+			if st.Role == "Leader" {
+				o.checkOneChangeAtATime(h, st)
+			}
 		}
 		lag := st.Committed - st.Applied
 		if lag > 3 {
@@ -401,6 +404,47 @@ func (o *oracles) observeMembership(h *Host, st raft.VerifState) {
 	o.checkRole(h, st, v, r.Stopped())
 }
 
+// checkOneChangeAtATime: membership changes take effect one at a time - a
+// leader admits a new config change entry only when every earlier one has
+// been applied, so its log holds at most one config change above its own
+// applied index (C07).
+func (o *oracles) checkOneChangeAtATime(h *Host, st raft.VerifState) {
+	s := o.s
+	r, ok := h.nh.VerifGetReplica(shardID)
+	if !ok || r.Stopped() {
+		return
+	}
+	p, _ := r.Peer().(*raft.Peer)
+	if p == nil {
+		return
+	}
+	full := raft.VerifPeekFull(p)
+	// the state machine's applied index, not the raft core's (lagging) copy of it
+	applied := r.Applied()
+	if full.LastIndex <= applied || full.LastIndex-applied > 64 {
+		return
+	}
+	full.Applied = applied
+	ents, err := raft.VerifEntries(p, applied+1, full.LastIndex+1)
+	if err != nil {
+		return
+	}
+	n := 0
+	var idx []uint64
+	for _, e := range ents {
+		if e.Type == pb.ConfigChangeEntry {
+			n++
+			idx = append(idx, e.Index)
+		}
+	}
+	if n > 0 {
+		s.ctx.Count("probe.leader_with_pending_config_change", 1)
+	}
+	if n > 1 {
+		s.ctx.Violate("C07", "two-pending-config-changes", "leader %d (term %d, applied %d, committed %d) holds %d config change entries that are not applied yet, at indexes %v", h.replicaID, st.Term, full.Applied, full.Committed, n, idx)
+	}
+}
+
 // checkRole: only regular voting members campaign or lead (C18).
 func (o *oracles) checkRole(h *Host, st raft.VerifState, v *memView, stopped bool) {
 	if stopped {
@@ -452,6 +496,7 @@ func (o *oracles) onSend(from int, mb pb.MessageBatch) {
 		case pb.RequestVote:
 			if sh.term < m.Term || (sh.term == m.Term && sh.vote != m.From) {
 				s.ctx.Violate("C04", "send-before-persist", "RequestVote term %d left replica %d while durable term=%d vote=%d", m.Term, m.From, sh.term, sh.vote)
+				s.ctx.Violate("C03", "vote-visible-before-durable", "RequestVote term %d left replica %d (its vote for itself) while durable term=%d vote=%d", m.Term, m.From, sh.term, sh.vote)
 			}
 			o.noteTerm(lg, m.Term)
 			lg.voteOf[m.Term] = m.From
@@ -459,6 +504,10 @@ func (o *oracles) onSend(from int, mb pb.MessageBatch) {
 			if !m.Reject {
 				if sh.term < m.Term || (sh.term == m.Term && sh.vote != m.To) {
 					s.ctx.Violate("C04", "send-before-persist", "vote for %d in term %d left replica %d while durable term=%d vote=%d", m.To, m.Term, m.From, sh.term, sh.vote)
+					// C03: one vote per term "also across restarts" - a vote that is
+					// visible before it is durable is forgotten by a crash at this very
+					// instant, after which the replica is free to vote again in the term
+					s.ctx.Violate("C03", "vote-visible-before-durable", "vote for %d in term %d left replica %d while durable term=%d vote=%d: a crash now makes it forget the vote", m.To, m.Term, m.From, sh.term, sh.vote)
 				}
 				if prev, ok := lg.voteOf[m.Term]; ok && prev != m.To {
 					s.ctx.Violate("C03", "two-votes", "replica %d granted its vote in term %d to %d and to %d", m.From, m.Term, prev, m.To)
